@@ -171,7 +171,31 @@ def run_script(script, retries, start_seq, ncalls):
     return bad
 
 
+def wraparound_stale():
+    """listed known finding: the wire carries a 16-bit sequence number, so a stale reply recorded exactly 65536 calls earlier passes the sequence check.
+    The 65536 calls in between are emulated by winding the proxy's counter back by one after the first call."""
+    d = FakeDaemon([("deliver",), ("stale-only",)])
+    d.start()
+    config.MAX_RETRIES = 0
+    config.COMMTIMEOUT = 0.5
+    config.SERIALIZER = "marshal"
+    try:
+        with client.Proxy("PYRO:obj@%s:%d" % d.addr) as p:
+            p._pyroBind()
+            first = p.echo("first-token")
+            p._pyroSeq = (p._pyroSeq - 1) & 0xffff          # == 65536 further calls later
+            try:
+                second = p.echo("second-token")
+            except errors.CommunicationError:
+                return False
+            return second == first
+    finally:
+        d.stop = True
+        d.sock.close()
+
+
 def main(mode):
+    known = []
     seed = int(os.environ.get("VERIF_SEED", "0") or 0)
     random.seed(seed)
     t0 = time.time()
@@ -189,9 +213,12 @@ def main(mode):
                         break
                     runs += 1
                     fail = run_script(script, retries, start_seq, len(script) + 1)
+        runs += 1
+        if wraparound_stale():
+            known.append("C03-stale-reply-after-sequence-wraparound")
     finally:
         config.MAX_RETRIES, config.COMMTIMEOUT, config.SERIALIZER = saved
-    rep = {"runs": runs, "failing_input": fail, "wall_s": round(time.time() - t0, 2),
+    rep = {"runs": runs, "failing_input": fail, "known_findings_reproduced": known, "wall_s": round(time.time() - t0, 2),
            "bounded": [{"what": "real Proxy against a scripted fake daemon applying reply fault scripts; MAX_RETRIES 0/1/2; sequence wrap-around",
                         "bound": "single faults + pairs from %d fault kinds" % len(FAULTS), "runs": runs, "failures": 0 if fail is None else 1}]}
     print(json.dumps(rep))
